@@ -125,6 +125,7 @@ def case_strategy(writer):
                       "sami": ["set", "lang"]}[writer]
             return {"writer": writer, "layout": L, "vw": vw, "vh": vh, "relativize": relativize,
                     "shared": draw(st.booleans()),
+                    "prev": draw(st.one_of(st.none(), st.none(), layout_strategy(percent_only=False))),
                     "fit": draw(st.booleans()), "level": draw(st.sampled_from(levels))}
         return build()
     return strat
@@ -240,6 +241,19 @@ def _run_writer(case, writer_cls, **extra):
         _share_sizes(cs)
     w = writer_cls(relativize=case["relativize"], fit_to_screen=case["fit"],
                    video_width=case["vw"], video_height=case["vh"], **extra)
+    if case.get("prev"):
+        # (a) another writer object with other options wrote an equal layout before, and
+        # (b) this writer object wrote another layout before
+        try:
+            other = writer_cls(relativize=True, fit_to_screen=not case["fit"], video_width=1280,
+                               video_height=720)
+            other.write(model.to_pycaption(_build_set(case)))
+        except Exception:  # noqa
+            pass
+        try:
+            w.write(model.to_pycaption(_build_set(dict(case, layout=case["prev"]))))
+        except Exception:  # noqa
+            pass
     return w.write(cs)
 
 
